@@ -286,10 +286,15 @@ impl World {
         {
             let us = users.clone();
             let odd = natives[2].clone();
+            let toks = tokens.clone();
             app.init_modules(|router, _, storage| {
                 for u in &us {
                     let mut coins: Vec<Coin> = NATIVES.iter().map(|d| coin(RICH, *d)).collect();
                     coins.push(coin(RICH, odd.clone()));
+                    // native coins that merely carry the name of a cw20 escrow key (the contract must refuse them whatever the allow list says)
+                    for tk in &toks {
+                        coins.push(coin(RICH, format!("cw20:{}", tk)));
+                    }
                     router.bank.init_balance(storage, u, coins).unwrap();
                 }
             });
